@@ -10,7 +10,7 @@ KINDS = ['ok', 'ok_json_accept', 'notfound', 'notfound_json', 'wrongverb', 'badp
 
 
 # kinds for sequential histories only (their handlers change application-wide state on purpose: hooks, a shared prepared error object)
-KINDS_SEQ = KINDS + ['oneshot', 'prepared_error']
+KINDS_SEQ = KINDS + ['oneshot', 'prepared_error', 'static_plain', 'static_range', 'static_ims', 'static_dl']       # (static_file reads the module-level request: outside the K10 shim only)
 
 _DEFAULT_ERRORS = []
 
@@ -36,6 +36,22 @@ def custom_errors():
     # (the texts hold characters an HTML page has to escape: these objects outlive the requests that hit them)
     return {rqe.RequestError: ombott.HTTPError(422, 'custom: can\'t process <this> & "that"'), rqe.BodySizeError: ombott.HTTPError(413, 'custom: can\'t accept more than <limit> bytes & no "more"'),
             rqe.BodyParsingError: ombott.HTTPError(422, 'custom: cannot parse <body> & \'rest\'')}
+
+
+_STATIC = {}
+
+
+def static_dir():
+    if 'dir' not in _STATIC:
+        import atexit, os, shutil, tempfile
+        d = tempfile.mkdtemp(prefix='verif-site-')
+        for name, data in (('doc.txt', b'0123456789abcdefghij'), ('empty.txt', b''), ('arch.tgz', b'not really an archive')):
+            with open(os.path.join(d, name), 'wb') as f:
+                f.write(data)
+            os.utime(os.path.join(d, name), (1000000000, 1000000000))
+        _STATIC['dir'] = d
+        atexit.register(shutil.rmtree, d, True)
+    return _STATIC['dir']
 
 
 class Env(dict):
@@ -112,6 +128,11 @@ def make_app(probe=None, config=None, private_errors=False, app=None, foreign=No
         out = 'form ' + ','.join('%s=%s' % (k, f[k]) for k in sorted(f))
         p('form:end')
         return out
+
+    @app.route('/static/<name>', overwrite=True)
+    def static(name):
+        # files served from a directory of the harness (fixed content and modification time)
+        return ombott.static_file(name, root=static_dir(), download=bool(rq.query.get('dl')))
 
     @app.route('/latin', overwrite=True)
     def latin():
@@ -405,6 +426,14 @@ def make_env(kind, n, stream_cls=Stream):
                   'extra_headers': [('X-Upload-Token', 'token-%d' % n)] if n % 3 == 0 else None}, {'name': 't', 'value': b'text'}]
         data, _ = encode_multipart(b, parts, b'', b'\r\n')
         return _e('POST', '/upload', q, stream=stream_cls(data), content_length=len(data), headers={'Content-Type': 'multipart/form-data; boundary=' + b})
+    if kind == 'static_plain':
+        return _e('GET', '/static/' + ['doc.txt', 'arch.tgz', 'empty.txt', 'missing.txt'][n % 4], q)
+    if kind == 'static_range':
+        return _e('GET', '/static/' + ['doc.txt', 'arch.tgz'][n % 2], q, headers={'Range': 'bytes=%d-%d' % (n % 5, 5 + n % 7)})
+    if kind == 'static_ims':
+        return _e('GET' if n % 2 else 'HEAD', '/static/doc.txt', q, headers={'If-Modified-Since': 'Sun, 09 Sep 2001 01:46:40 GMT' if n % 3 else 'Sat, 08 Sep 2001 01:46:40 GMT'})
+    if kind == 'static_dl':
+        return _e('GET', '/static/doc.txt', q + '&dl=1')
     if kind == 'latin_gen':
         return _e('GET', '/latin', 'n=%d' % n)
     if kind == 'qs_reassign':
